@@ -195,6 +195,125 @@ def _direct_exits(fn):
     return out
 
 
+_MUTATORS = {"update", "append", "extend", "insert", "pop", "popitem", "clear", "setdefault", "remove", "add", "discard",
+             "sort", "reverse", "fill", "itemset", "resize", "put", "__setitem__", "__delitem__"}
+_MUTABLE_CALLS = {"dict", "list", "set", "bytearray", "defaultdict", "OrderedDict", "deque", "Counter", "array", "zeros", "ones",
+                  "empty", "full", "eye", "arange", "asarray", "zeros_like", "empty_like", "Lock", "RLock", "local", "WeakValueDictionary",
+                  "WeakKeyDictionary"}
+_MEMO = {"lru_cache", "cache", "memoize"}
+
+
+def _is_mutable_value(v):
+    if isinstance(v, (ast.Dict, ast.List, ast.Set, ast.ListComp, ast.DictComp, ast.SetComp)):
+        return True
+    if isinstance(v, ast.Call):
+        f = v.func
+        name = f.id if isinstance(f, ast.Name) else (f.attr if isinstance(f, ast.Attribute) else "")
+        return name in _MUTABLE_CALLS
+    return False
+
+
+def _state_sites():
+    """every place of the package (tests excluded) where state could outlive a call: module-level variables, class
+    attributes, default arguments, memoising decorators, `global` statements, attributes set on functions/classes/
+    modules.  Row: (module, kind, name, mutable, written)"""
+    pkg = os.path.join(REPO, "cobyqa")
+    trees = {}
+    for root, dirs, files in os.walk(pkg):
+        dirs[:] = sorted(d for d in dirs if d not in ("tests", "__pycache__"))
+        for f in sorted(files):
+            if f.endswith(".py"):
+                path = os.path.join(root, f)
+                trees[os.path.relpath(path, REPO)] = _parse(path)
+    rows = []
+    shared = {}       # name -> mutable?  (module-level variables of any module; imported names keep their name)
+    toplevel_defs = set()
+    for mod, tree in trees.items():
+        for node in tree.body:
+            if isinstance(node, (ast.FunctionDef, ast.ClassDef)):
+                toplevel_defs.add(node.name)
+            targets = []
+            if isinstance(node, ast.Assign):
+                targets, value = node.targets, node.value
+            elif isinstance(node, ast.AnnAssign) and node.value is not None:
+                targets, value = [node.target], node.value
+            elif isinstance(node, ast.AugAssign):
+                targets, value = [node.target], node.value
+            for t in targets:
+                if isinstance(t, ast.Name):
+                    if t.id.startswith("__") and t.id.endswith("__"):
+                        continue
+                    shared[t.id] = shared.get(t.id, False) or _is_mutable_value(value)
+                    rows.append([mod, "module-var", t.id, _is_mutable_value(value), False])
+                elif isinstance(t, ast.Attribute):
+                    rows.append([mod, "attribute-set-at-import", ast.unparse(t), True, True])
+    written = set()
+    for mod, tree in trees.items():
+        for fn in ast.walk(tree):
+            if isinstance(fn, ast.ClassDef):
+                for st in fn.body:
+                    tv = None
+                    if isinstance(st, ast.Assign):
+                        tv = (st.targets, st.value)
+                    elif isinstance(st, ast.AnnAssign) and st.value is not None:
+                        tv = ([st.target], st.value)
+                    if tv:
+                        for t in tv[0]:
+                            if isinstance(t, ast.Name):
+                                rows.append([mod, "class-attr", fn.name + "." + t.id, _is_mutable_value(tv[1]), False])
+            if not isinstance(fn, (ast.FunctionDef, ast.AsyncFunctionDef, ast.Lambda)):
+                continue
+            if not isinstance(fn, ast.Lambda):
+                for d in fn.args.defaults + [k for k in fn.args.kw_defaults if k is not None]:
+                    if _is_mutable_value(d):
+                        rows.append([mod, "default-arg", fn.name, True, True])
+                for d in fn.decorator_list:
+                    src = ast.unparse(d)
+                    if any(m in src for m in _MEMO):
+                        rows.append([mod, "memo-decorator", fn.name + "@" + src, True, True])
+            local = set()
+            body = fn.body if isinstance(fn.body, list) else [fn.body]
+            globs = set()
+            for st in body:
+                for node in ast.walk(st):
+                    if isinstance(node, ast.Global):
+                        globs.update(node.names)
+                        for nm in node.names:
+                            rows.append([mod, "global-stmt", getattr(fn, "name", "lambda") + ":" + nm, True, True])
+                    elif isinstance(node, ast.Name) and isinstance(node.ctx, ast.Store):
+                        local.add(node.id)
+            if not isinstance(fn, ast.Lambda):
+                local.update(a.arg for a in fn.args.args + fn.args.kwonlyargs + fn.args.posonlyargs)
+            local -= globs
+
+            def base_name(e):
+                while isinstance(e, (ast.Subscript, ast.Attribute)):
+                    e = e.value
+                return e.id if isinstance(e, ast.Name) else None
+            for st in body:
+                for node in ast.walk(st):
+                    tgt = []
+                    if isinstance(node, (ast.Assign, ast.Delete)):
+                        tgt = node.targets
+                    elif isinstance(node, (ast.AugAssign, ast.AnnAssign)):
+                        tgt = [node.target]
+                    for t in tgt:
+                        if isinstance(t, (ast.Subscript, ast.Attribute)):
+                            b = base_name(t)
+                            if b is not None and b not in local and (b in shared or b in toplevel_defs):
+                                written.add(b)
+                                if b in toplevel_defs:
+                                    rows.append([mod, "attribute-on-definition", ast.unparse(t), True, True])
+                    if isinstance(node, ast.Call) and isinstance(node.func, ast.Attribute) and node.func.attr in _MUTATORS:
+                        b = base_name(node.func.value)
+                        if b is not None and b not in local and b in shared:
+                            written.add(b)
+    for r in rows:
+        if r[1] == "module-var" and r[2] in written:
+            r[4] = True
+    return rows
+
+
 def generate():
     settings = _parse(os.path.join(REPO, "cobyqa", "settings.py"))
     main = _parse(os.path.join(REPO, "cobyqa", "main.py"))
@@ -255,6 +374,14 @@ def generate():
     H.append(",\n".join(f"  ({lean_str(k)}, {lean_str(st)})" for k, st, _ in _direct_exits(minimize)) + "]")
     H += ["", "end Cobyqa.Gen", ""]
     files["Handlers.lean"] = "\n".join(H)
+    S = ["/- GENERATED by harness/translate.py from every module of /repo/cobyqa (tests excluded) — do not edit. -/",
+         "namespace Cobyqa.Gen", "",
+         "/-- every site where state could outlive a call of `minimize`: module, kind, name, holds a mutable object, is written by package code -/",
+         "def stateSites : List (String × String × String × Bool × Bool) := ["]
+    S.append(",\n".join(f"  ({lean_str(m)}, {lean_str(k)}, {lean_str(nm)}, {'true' if mu else 'false'}, {'true' if wr else 'false'})"
+                        for m, k, nm, mu, wr in _state_sites()) + "]")
+    S += ["", "end Cobyqa.Gen", ""]
+    files["State.lean"] = "\n".join(S)
     changed = []
     gdir = os.path.join(LEAN, "CobyqaVerif", "Gen")
     os.makedirs(gdir, exist_ok=True)
